@@ -199,3 +199,74 @@ func vfH_C02_pipe() {
 		vfrt.Assert(rt.calls == 2, "c02/each-request-forwarded-once")
 	}
 }
+
+// vfEventBody delivers its parts one Read at a time and records, at each Read, how much the client has received.
+type vfEventBody struct {
+	parts    [][]byte
+	i        int
+	seenAt   []int
+	observed func() int
+}
+
+func (b *vfEventBody) Read(p []byte) (int, error) {
+	b.seenAt = append(b.seenAt, b.observed())
+	if b.i >= len(b.parts) {
+		return 0, io.EOF
+	}
+	n := copy(p, b.parts[b.i])
+	b.i++
+	return n, nil
+}
+func (b *vfEventBody) Close() error { return nil }
+
+//vf:harness property=C02 nopanic reach=stream-sse,stream-chunked steps=8000000
+func vfH_C02_stream() {
+	// incremental delivery: what the origin has sent is with the client before the proxy waits for more body bytes
+	cfg := HTTPProxyConfig{}
+	cfg.Name = "fw"
+	cfg.ProxyLocalhost = AllowProxyLocalhost
+	hp := vfNewHTTPProxy(cfg)
+	rt := hp.transport.(*vfRoundTripper)
+	conn := martian.NewVfConn([]byte("GET http://example.com/events HTTP/1.1\r\nHost: example.com\r\n\r\n"))
+	sse := vfrt.Choice("event-stream", 2) == 1
+	e1 := append([]byte("data: "), vfrt.Bytes("event-1", 2)...)
+	e2 := append([]byte("data: "), vfrt.Bytes("event-2", 2)...)
+	for _, b := range append(append([]byte{}, e1[6:]...), e2[6:]...) {
+		vfrt.Assume(b >= 'a' && b <= 'z')
+	}
+	vfrt.Assume(e1[6] != e2[6]) // distinct events, so that each can be located on the wire
+	e1, e2 = append(e1, '\n', '\n'), append(e2, '\n', '\n')
+	body := &vfEventBody{parts: [][]byte{e1, e2}, observed: func() int { return conn.Out.Len() }}
+	rt.respond = func(req *http.Request, n int) (*http.Response, error) {
+		h := http.Header{}
+		if sse {
+			h.Set("Content-Type", "text/event-stream")
+		} else {
+			h.Set("Content-Type", "application/octet-stream")
+		}
+		return &http.Response{StatusCode: 200, ProtoMajor: 1, ProtoMinor: 1, Header: h, Body: body, ContentLength: -1, TransferEncoding: []string{"chunked"}, Request: req}, nil
+	}
+	if sse {
+		vfrt.Reach("stream-sse")
+	} else {
+		vfrt.Reach("stream-chunked")
+	}
+	martian.VfServeConn(hp.proxy, conn)
+	vfrt.Assert(len(body.seenAt) == 3, "stream/body-read-to-the-end")
+	if len(body.seenAt) != 3 {
+		return
+	}
+	out := conn.Out.Bytes()
+	p1 := bytes.Index(out, e1)
+	p2 := bytes.Index(out, e2)
+	vfrt.Assert(p1 > 0 && p2 > p1, "stream/events-on-the-wire-in-order")
+	// when the proxy asked for the second part, the first event was already with the client; likewise for the end
+	vfrt.Assert(body.seenAt[1] >= p1+len(e1), "stream/first-event-delivered-before-waiting-for-more")
+	vfrt.Assert(body.seenAt[2] >= p2+len(e2), "stream/second-event-delivered-before-waiting-for-the-end")
+	res, err := http.ReadResponse(bufio.NewReader(bytes.NewReader(out)), &http.Request{Method: "GET"})
+	vfrt.Assert(err == nil, "stream/parses")
+	if err == nil {
+		got, _ := io.ReadAll(res.Body)
+		vfrt.Assert(bytes.Equal(got, append(append([]byte{}, e1...), e2...)), "stream/body-bytes")
+	}
+}
